@@ -405,6 +405,41 @@ def rule_r9(prog, res):
     res.floor('R9', 'identity tests on values in XML writers', n, 4)
 
 
+def rule_r10(prog, res):
+    from . import c17
+    res.share('R10', 'the XML parser honours the document\'s own encoding '
+              'declaration: parser options are the constructor arguments '
+              '(C17-R5)', 'C17', c17.rule_option_binding, prog, Result)
+
+
+# ------------------------------------------------------------------ R11
+def rule_r11(prog, res):
+    res.rule('R11', 'every declared SOAP header is looked up by its qualified '
+             'name, whatever the number of header blocks sent')
+    n = 0
+    for cfq in ('spyne.protocol.soap.soap11:Soap11',):
+        f = prog.cls(cfq).methods.get('deserialize')
+        if f is None:
+            raise AnalysisError('Soap11.deserialize', 'not found')
+        for c in calls_in(f.node):
+            if call_name(c) == 'get' and isinstance(
+                    c.func, ast.Attribute) and 'in_header_dict' in unparse(
+                    c.func.value):
+                n += 1
+                guardspec.check(
+                    res, 'R11', f, c, 'the by-name lookup of a declared '
+                    'header',
+                    allowed=[('message in (self.REQUEST, self.RESPONSE)',
+                              True),
+                             ("ctx.in_body_doc.tag == '{%s}Fault' % "
+                              "self.ns_soap_env", False),
+                             ('header_class is None', False),
+                             ('ctx.in_header_doc is None', False),
+                             ('i < len(header_class)', True)],
+                    key='Soap11.deserialize|header-lookup')
+    res.floor('R11', 'header lookups in Soap11.deserialize', n, 1)
+
+
 def rule_shared(prog, res, tier):
     res.rule('R4', 'the user function runs exactly once (C14-R2)')
     res.rule('R5', 'wire order is declaration order, parents first (C16-R1, '
@@ -450,6 +485,8 @@ def run(prog, res, tier):
     res.run_rule(rule_shared, prog, res, tier)
     res.run_rule(rule_r8, prog, res)
     res.run_rule(rule_r9, prog, res)
+    res.run_rule(rule_r10, prog, res)
+    res.run_rule(rule_r11, prog, res)
 
 
 _X = 'spyne/protocol/xml.py'
@@ -457,6 +494,12 @@ _S = 'spyne/protocol/soap/soap11.py'
 _A = 'spyne/application.py'
 
 MUTANTS = [
+    Mutant('header-lookup-by-count', 'R11', 'fire', _S,
+           in_func('Soap11.deserialize', "if i < len(header_class):",
+                   "if i < len(in_header_dict):"), 'extra-guard'),
+    Mutant('header-lookup-unconditional', 'R11', 'benign', _S,
+           in_func('Soap11.deserialize', "if i < len(header_class):",
+                   "if True:"), None),
     Mutant('soap-body-attached-first', 'R8', 'fire', _S,
            in_func('Soap11.serialize', "            # header\n",
                    "            ctx.out_document.append(ctx.out_body_doc)\n"
